@@ -322,3 +322,61 @@ def register(glob, which, names, split=None):
                 c = getattr(f, "_vf", None)
                 if c is not None and (cname == name or cname.startswith(name + "_")):
                     c.bounds = BOUNDS[name]
+
+
+def branch_retry_kinds(which, kind: int, bfail: bool, c0: int, c1: int, c2: int, c3: int, c4: int, c5: int, c6: int, c7: int, c8: int, c9: int):
+    """Branch A holds a state with its own Retry (2 s interval) around a Task fa that fails once and then succeeds:
+    the Task itself (kind 0), a nested Parallel (kind 1) or a nested Map over one item (kind 2).  Branch B is a Task fb
+    that (bfail) fails unhandled while A is sitting out its retry delay - A then is nothing but a pending timer, and
+    when that timer fires the retried state must notice that its branch was terminated."""
+    kind = cint(kind, 0, 2); bfail = cbool(bfail)
+    retry = [{"ErrorEquals": ["Flaky"], "IntervalSeconds": 2, "MaxAttempts": 2, "BackoffRate": 1.0}]
+    if kind == 0:
+        A = task("fa", End=True, Retry=retry)
+        aout = {"ok": "fa"}
+    elif kind == 1:
+        A = {"Type": "Parallel", "End": True, "Retry": retry, "Branches": [{"StartAt": "AT", "States": {"AT": task("fa", End=True)}}]}
+        aout = [{"ok": "fa"}]
+    else:
+        A = {"Type": "Map", "ItemsPath": "$.items", "End": True, "Retry": retry, "Iterator": {"StartAt": "AT", "States": {"AT": task("fa", End=True)}}}
+        aout = [{"ok": "fa"}]
+    asl = {"StartAt": "P", "States": {"P": {"Type": "Parallel", "End": True, "Branches": [
+        {"StartAt": "A", "States": {"A": A}},
+        {"StartAt": "B", "States": {"B": task("fb", End=True)}}]}}}
+    n = [0]
+
+    def wa(req):
+        n[0] += 1
+        return {"errorType": "Flaky", "errorMessage": "first"} if n[0] == 1 else {"ok": "fa"}
+    data = {"x": 1, "items": [{"i": 0}]}
+    expect = ("FAILED", "Boom") if bfail else ("SUCCEEDED", [aout, {"ok": "fb", "in": data}])
+    return _run(asl, data, [c0, c1, c2, c3, c4, c5, c6, c7, c8, c9], {"fa": wa, "fb": worker(bfail, "Boom", "fb")},
+                which, "STANDARD", expect, extra_check=_fanout_checks(2, ("A", "AT", "B"), None, "ParallelStateFailed"), max_steps=200)
+
+
+SCN["branch_retry_kinds"] = (["0 <= kind < 3"], 600, 1800, ("quick", "thorough"))
+scn.__dict__["branch_retry_kinds"] = branch_retry_kinds
+
+
+def late_nested(which, kind: int, bfail: bool, c0: int, c1: int, c2: int, c3: int, c4: int, c5: int, c6: int, c7: int, c8: int, c9: int):
+    """Branch A = Pass -> Q, where Q is a nested Parallel (kind 0) or Map (kind 1) of Pass chains; branch B = Task fb
+    that (bfail) fails unhandled.  In some schedules Q's event is still queued when the enclosing Parallel fails: Q is
+    then entered for a branch that is already terminated - its event must be dropped AND acknowledged."""
+    kind = cint(kind, 0, 1); bfail = cbool(bfail)
+    if kind == 0:
+        Q = {"Type": "Parallel", "End": True, "Branches": [{"StartAt": "L", "States": {"L": {"Type": "Pass", "Result": "l", "End": True}}}]}
+        qout = ["l"]
+    else:
+        Q = {"Type": "Map", "ItemsPath": "$.items", "End": True, "Iterator": {"StartAt": "L", "States": {"L": {"Type": "Pass", "Result": "l", "End": True}}}}
+        qout = ["l"]
+    asl = {"StartAt": "P", "States": {"P": {"Type": "Parallel", "End": True, "Branches": [
+        {"StartAt": "A1", "States": {"A1": {"Type": "Pass", "Next": "Q"}, "Q": Q}},
+        {"StartAt": "B", "States": {"B": task("fb", End=True)}}]}}}
+    data = {"x": 1, "items": [{"i": 0}]}
+    expect = ("FAILED", "Boom") if bfail else ("SUCCEEDED", [qout, {"ok": "fb", "in": data}])
+    return _run(asl, data, [c0, c1, c2, c3, c4, c5, c6, c7, c8, c9], {"fb": worker(bfail, "Boom", "fb")},
+                which, "STANDARD", expect, extra_check=_fanout_checks(2, ("A1", "Q", "L", "B"), None, "ParallelStateFailed"), max_steps=200)
+
+
+SCN["late_nested"] = (["0 <= kind < 2"], 600, 1800, ("quick", "thorough"))
+scn.__dict__["late_nested"] = late_nested
